@@ -60,8 +60,11 @@ public:
       buffer = (byte*)new char[size + 1];
     }
     else if(!buffer)
+    {
+      bufferEnd = bufferStart;
       return *this;
-    Memory::copy(buffer, other.bufferStart, size);
+    }
+    Memory::move(buffer, other.bufferStart, size);
     bufferStart = buffer;
     bufferEnd = buffer + size;
     *bufferEnd = 0;
